@@ -1,7 +1,7 @@
 (* Proofs/LogPdf.v -- C07: each log_pdf of Model/LogPdf.v (instance RO) is the logarithm of the
    textbook density of the named family, under the written contracts of the external routines.
    The textbook densities are defined here, independently of the model functions. *)
-From Coq Require Import Reals Lra Lia List Permutation.
+From Coq Require Import Reals Lra Lia List Permutation FinFun.
 From Coquelicot Require Import Coquelicot.
 From PB Require Import Ops CLin Model.LogPdf.
 Import ListNotations.
@@ -158,3 +158,556 @@ Proof.
   unfold ldet_sph, ldet_diag, pc_sph, pc_diag.
   rewrite (bsum_RO D (fun _ => oln RO (oinv RO (osqrt RO c)))), rsum_const, onat_R. reflexivity. Qed.
 End GaussSph.
+
+(* ================================================================= complex Gaussian *)
+Lemma csum_delta_l n (f : nat -> C) i : (i < n)%nat ->
+  csum n (fun k => (if Nat.eqb i k then RtoC 1 else RtoC 0) * f k)%C = f i.
+Proof. induction n; intros Hi; [lia|]. cbn [csum]. destruct (Nat.eq_dec i n) as [->|Hne].
+  - rewrite Nat.eqb_refl. rewrite csum_zero. ring.
+    intros k Hk. destruct (Nat.eqb_spec n k); [lia|ring].
+  - rewrite IHn by lia. destruct (Nat.eqb_spec i n); [lia|ring]. Qed.
+
+(* density of the circularly symmetric complex normal CN(0, Sigma) w.r.t. Lebesgue measure on C^D,
+   written with Sinv = Sigma^-1 and detS = det Sigma:  exp(- y^H Sinv y) / (pi^D detS) *)
+Definition cnormal_pdf (D : nat) (Sinv : nat -> nat -> C) (detS : R) (y : nat -> C) : R :=
+  exp (- fst (form D Sinv y y)) / (PI ^ D * detS).
+
+Section CCSG.
+Variables (D : nat) (Sigma Sinv : nat -> nat -> C) (detS logabsdet : R) (y sol : nat -> C).
+(* contracts: solve, slogdet, and what "inverse" means *)
+Hypothesis Hsolve : forall i, (i < D)%nat -> mv D Sigma sol i = y i.
+Hypothesis Hinv : forall i k, (i < D)%nat -> (k < D)%nat ->
+  csum D (fun j => Sinv i j * Sigma j k)%C = if Nat.eqb i k then RtoC 1 else RtoC 0.
+Hypothesis Hdet : logabsdet = ln detS.
+Hypothesis Hpos : 0 < detS.
+
+Lemma solve_is_inverse_apply i : (i < D)%nat -> mv D Sinv y i = sol i.
+Proof. intros Hi. unfold mv.
+  transitivity (csum D (fun j => csum D (fun k => Sinv i j * Sigma j k * sol k)%C)).
+  { apply csum_ext; intros j Hj. rewrite <- (Hsolve j Hj). unfold mv. rewrite <- csum_scal.
+    apply csum_ext; intros; ring. }
+  rewrite csum_swap.
+  rewrite (csum_ext D _ (fun k => (if Nat.eqb i k then RtoC 1 else RtoC 0) * sol k)%C).
+  2:{ intros k Hk. rewrite <- (Hinv i k Hi Hk). rewrite <- csum_scal_r. reflexivity. }
+  apply csum_delta_l; auto. Qed.
+
+Theorem ccsg_logpdf_spec :
+  ccsg_logpdf RO PI D y logabsdet sol = ln (cnormal_pdf D Sinv detS y).
+Proof. unfold cnormal_pdf.
+  assert (Hp : 0 < PI ^ D) by (apply pow_lt, PI_RGT_0).
+  rewrite ln_div; [| apply exp_pos | apply Rmult_lt_0_compat; auto].
+  rewrite ln_exp. rewrite ln_mult by auto. rewrite ln_pow by apply PI_RGT_0.
+  unfold ccsg_logpdf, osub. rewrite onat_R, csumO_RO. cbn [oadd omul oopp oln RO]. rewrite Hdet.
+  replace (form D Sinv y y) with (csum D (fun d => cmul RO (cconj RO (y d)) (sol d))). ring.
+  unfold form, dot. apply csum_ext; intros d Hd. rewrite solve_is_inverse_apply by auto. reflexivity. Qed.
+End CCSG.
+
+(* ================================================================= von Mises-Fisher *)
+Lemma oabs_R a : oabs RO a = Rabs a.
+Proof. unfold oabs. cbn [oleb o0 oopp RO]. unfold Rleb. destruct (Rle_dec 0 a).
+  rewrite Rabs_right; auto. lra. rewrite Rabs_left; auto. lra. Qed.
+
+(* density of vMF(mu, kappa) w.r.t. surface measure on the unit sphere of R^D, Iv = I_{D/2-1}(kappa):
+   kappa^(D/2-1) / ((2 pi)^(D/2) Iv) * exp(kappa mu^T x) *)
+Definition vmf_pdf (D : nat) (mu : nat -> R) (kappa Iv : R) (x : nat -> R) : R :=
+  Rpower kappa (INR D / 2 - 1) / (Rpower (2 * PI) (INR D / 2) * Iv)
+  * exp (kappa * rsum D (fun d => mu d * x d)).
+
+(* Gamma(n/2) for n >= 1 by its recurrence from Gamma(1/2) = sqrt(pi), Gamma(1) = 1 *)
+Fixpoint gamma_half (n : nat) : R :=
+  match n with
+  | 0%nat => 0
+  | S 0%nat => sqrt PI
+  | S (S m) => match m with 0%nat => 1 | _ => INR m / 2 * gamma_half m end
+  end.
+(* m-th term of the series of the modified Bessel function I_{D/2-1}(kappa):
+   (kappa/2)^(2m + D/2 - 1) / (m! Gamma(m + D/2)) *)
+Definition bessel_term (D : nat) (kappa : R) (m : nat) : R :=
+  Rpower (kappa / 2) (2 * INR m + INR D / 2 - 1) / (INR (fact m) * gamma_half (2 * m + D)).
+
+Lemma gamma_half_pos n : (1 <= n)%nat -> 0 < gamma_half n.
+Proof.
+  assert (H : forall k, (1 <= k)%nat -> 0 < gamma_half k /\ 0 < gamma_half (S k)).
+  { induction k; intros Hk. lia.
+    destruct k as [|k].
+    - split. cbn [gamma_half]. apply sqrt_lt_R0, PI_RGT_0. cbn [gamma_half]. lra.
+    - destruct (IHk ltac:(lia)) as [H1 H2]. split; auto.
+      change (0 < INR (S k) / 2 * gamma_half (S k)).
+      apply Rmult_lt_0_compat; auto. assert (0 < INR (S k)) by (apply lt_0_INR; lia). lra. }
+  intros Hn. apply (H n Hn). Qed.
+
+Lemma bessel_term_pos D kappa m : (1 <= D)%nat -> 0 < kappa -> 0 < bessel_term D kappa m.
+Proof. intros HD Hk. unfold bessel_term, Rdiv. apply Rmult_lt_0_compat. apply exp_pos.
+  apply Rinv_0_lt_compat, Rmult_lt_0_compat. apply lt_0_INR, lt_O_fact. apply gamma_half_pos. lia. Qed.
+
+(* a convergent series of positive terms has a positive sum *)
+Lemma is_series_pos (a : nat -> R) (l : R) : (forall n, 0 < a n) -> is_series a l -> 0 < l.
+Proof. intros Ha Hs.
+  assert (H : Rbar_le (Finite (a 0%nat)) (Finite l)).
+  { apply (is_lim_seq_le (fun _ => a 0%nat) (sum_n a) (Finite (a 0%nat)) (Finite l)).
+    - intros n. induction n. rewrite sum_O. lra. rewrite sum_Sn. unfold plus; simpl. pose proof (Ha (S n)). lra.
+    - apply is_lim_seq_const.
+    - exact Hs. }
+  simpl in H. pose proof (Ha 0%nat). lra. Qed.
+
+Section VMF.
+Variables (D : nat) (mu y : nat -> R) (kappa ive tiny Iv : R).
+Hypothesis HD : (1 <= D)%nat.
+Hypothesis Hk : 0 < kappa.
+Hypothesis Htiny : 0 < tiny.
+Hypothesis Hnorm : tiny <= sqrt (rsum D (fun d => y d * y d)).
+(* contract of scipy.special.ive: exponentially scaled modified Bessel function of the first kind *)
+Hypothesis Hbessel : is_series (bessel_term D kappa) Iv.
+Hypothesis Hive : ive = Iv * exp (- Rabs kappa).
+
+Lemma bessel_pos : 0 < Iv.
+Proof. apply (is_series_pos (bessel_term D kappa)); auto. intros; apply bessel_term_pos; auto. Qed.
+
+Theorem vmf_logpdf_spec :
+  vmf_logpdf RO PI D mu y kappa ive tiny
+  = ln (vmf_pdf D mu kappa Iv (fun d => y d / sqrt (rsum D (fun d => y d * y d)))).
+Proof.
+  pose proof bessel_pos as HI. set (nrm := sqrt (rsum D (fun d => y d * y d))) in *.
+  unfold vmf_pdf.
+  assert (H1 : 0 < Rpower kappa (INR D / 2 - 1)) by apply exp_pos.
+  assert (H2 : 0 < Rpower (2 * PI) (INR D / 2)) by apply exp_pos.
+  rewrite ln_mult; [| apply Rdiv_lt_0_compat; auto; apply Rmult_lt_0_compat; auto | apply exp_pos].
+  rewrite (ln_div (Rpower kappa (INR D / 2 - 1))) by (auto; apply Rmult_lt_0_compat; auto).
+  rewrite (ln_mult (Rpower (2 * PI) (INR D / 2)) Iv) by auto. rewrite !ln_Rpower, ln_exp.
+  unfold vmf_logpdf, vmf_lognorm, vmf_unit, halfD, osub, odiv. rewrite oabs_R, omax_RO, sumsq_R, two_R, onat_R, bsum_RO.
+  cbn [oadd omul oopp oinv oln osqrt o1 RO]. fold nrm. rewrite Rmax_left by exact Hnorm.
+  rewrite Hive. rewrite (ln_mult Iv (exp (- Rabs kappa))), ln_exp by (auto; apply exp_pos).
+  rewrite (rsum_ext D (fun d => y d * / nrm * mu d) (fun d => mu d * (y d / nrm))) by (intros; unfold Rdiv; ring).
+  unfold Rdiv. ring. Qed.
+End VMF.
+
+(* ================================================================= complex Watson *)
+(* density of the complex Watson distribution w.r.t. surface measure on the unit sphere of C^D,
+   M = 1F1(1; D; kappa):   (D-1)! / (2 pi^D M) * exp(kappa |mu^H z|^2) *)
+Definition watson_pdf (D : nat) (mu : nat -> C) (kappa M : R) (z : nat -> C) : R :=
+  INR (fact (D - 1)) / (2 * PI ^ D * M) * exp (kappa * (Cmod (dot D mu z)) ^ 2).
+(* m-th term of Kummer's series 1F1(1; D; kappa) = sum_m kappa^m / (D)_m,  (D)_m = (D-1+m)!/(D-1)! *)
+Definition kummer_term (D : nat) (kappa : R) (m : nat) : R :=
+  kappa ^ m * INR (fact (D - 1)) / INR (fact (D - 1 + m)).
+
+Section Watson.
+Variables (D : nat) (mu y : nat -> C) (kappa h1f1 M : R).
+Hypothesis Hkummer : is_series (kummer_term D kappa) M.
+Hypothesis Hh : h1f1 = M.
+Hypothesis HM : 0 < M.
+
+Theorem watson_logpdf_spec :
+  watson_logpdf RO PI D mu y kappa h1f1 = ln (watson_pdf D mu kappa M y).
+Proof. unfold watson_pdf.
+  assert (Hf : 0 < INR (fact (D - 1))) by apply lt_0_INR, lt_O_fact.
+  assert (Hp : 0 < PI ^ D) by apply pow_lt, PI_RGT_0.
+  assert (Hq : 0 < 2 * PI ^ D * M) by (apply Rmult_lt_0_compat; auto; lra).
+  rewrite ln_mult; [| apply Rdiv_lt_0_compat; auto | apply exp_pos]. rewrite ln_exp, ln_div by auto.
+  unfold watson_logpdf, watson_lognorm, osub, odiv. rewrite cabs2_RO, csumO_RO, two_R, opow_R, ofact_R.
+  cbn [oadd omul oopp oinv oln RO]. rewrite Hh.
+  replace (M * (2 * PI ^ D * / INR (fact (D - 1)))) with ((2 * PI ^ D * M) / INR (fact (D - 1))) by (unfold Rdiv; ring).
+  rewrite ln_div by auto.
+  replace (csum D (fun d => cmul RO (y d) (cconj RO (mu d)))) with (dot D mu y).
+  2:{ unfold dot. apply csum_ext; intros. bridge. ring. }
+  ring. Qed.
+End Watson.
+
+(* a convergent series with first term positive and all terms non-negative has a positive sum *)
+Lemma kummer_pos D kappa M : 0 <= kappa -> is_series (kummer_term D kappa) M -> 0 < M.
+Proof. intros Hk Hs.
+  assert (H : Rbar_le (Finite 1) (Finite M)).
+  { apply (is_lim_seq_le (fun _ => 1) (sum_n (kummer_term D kappa)) (Finite 1) (Finite M)).
+    - assert (Hnn : forall m, 0 <= kummer_term D kappa m).
+      { intros m. unfold kummer_term, Rdiv. apply Rmult_le_pos. apply Rmult_le_pos. apply pow_le; auto.
+        apply pos_INR. left. apply Rinv_0_lt_compat, lt_0_INR, lt_O_fact. }
+      intros n. induction n.
+      + rewrite sum_O. unfold kummer_term. rewrite Nat.add_0_r. cbn [pow]. right. field. apply not_0_INR, fact_neq_0.
+      + rewrite sum_Sn. unfold plus; simpl. pose proof (Hnn (S n)). lra.
+    - apply is_lim_seq_const.
+    - exact Hs. }
+  simpl in H. lra. Qed.
+
+(* Kummer's series in closed form (Mardia & Dryden 1999, eq. 3):
+   1F1(1; D; kappa) = (D-1)! / kappa^(D-1) * (exp kappa - sum_{r < D-1} kappa^r / r!) *)
+Lemma sum_n_rsum (a : nat -> R) n : sum_n a n = rsum (S n) a.
+Proof. induction n. rewrite sum_O. cbn [rsum]. lra. rewrite sum_Sn, IHn. cbn [rsum]. reflexivity. Qed.
+
+Theorem watson_series_closed_form D kappa : (1 <= D)%nat -> kappa <> 0 ->
+  is_series (kummer_term D kappa)
+    (INR (fact (D - 1)) / kappa ^ (D - 1) * (exp kappa - rsum (D - 1) (fun r => kappa ^ r / INR (fact r)))).
+Proof. intros HD Hk.
+  set (e := fun n : nat => kappa ^ n / INR (fact n)).
+  assert (He : is_series e (exp kappa)).
+  { pose proof (is_exp_Reals kappa) as H. unfold is_pseries in H.
+    eapply is_series_ext; [| exact H]. intros n. unfold e, scal; simpl. unfold mult; simpl.
+    rewrite pow_n_pow. unfold Rdiv. reflexivity. }
+  set (n := (D - 1)%nat).
+  assert (Hshift : is_series (fun k => e (n + k)%nat) (exp kappa - rsum n e)).
+  { destruct n as [|n'] eqn:En.
+    - cbn [rsum]. rewrite Rminus_0_r. exact He.
+    - apply is_series_incr_n. lia. cbn [pred]. rewrite sum_n_rsum. unfold plus; simpl.
+      replace (exp kappa - (rsum n' e + e n') + (rsum n' e + e n')) with (exp kappa) by ring. exact He. }
+  assert (Hkn : kappa ^ n <> 0) by (apply pow_nonzero; auto).
+  assert (Hsc := is_series_scal_l (INR (fact n) / kappa ^ n) _ _ Hshift).
+  eapply is_series_ext; [| exact Hsc]. intros m. unfold scal; simpl. unfold mult; simpl.
+  unfold kummer_term, e. fold n. rewrite pow_add. field. split; [apply not_0_INR, fact_neq_0 | auto]. Qed.
+
+(* ================================================================= reindexing finite sums / products *)
+Section Big.
+Variables (op : R -> R -> R) (e : R).
+Hypothesis op_comm : forall a b, op a b = op b a.
+Hypothesis op_assoc : forall a b c, op a (op b c) = op (op a b) c.
+Hypothesis op_e : forall a, op e a = a.
+Fixpoint big (n : nat) (g : nat -> R) : R := match n with 0%nat => e | S k => op (big k g) (g k) end.
+Definition lbig (l : list R) : R := fold_right op e l.
+Lemma lbig_app l x : lbig (l ++ [x]) = op (lbig l) x.
+Proof. induction l; cbn [app lbig fold_right]. rewrite op_e, op_comm, op_e. reflexivity.
+  fold (lbig (l ++ [x])). rewrite IHl. fold (lbig l). apply op_assoc. Qed.
+Lemma big_lbig n g : big n g = lbig (map g (seq 0 n)).
+Proof. induction n. reflexivity. rewrite seq_S, map_app. cbn [map]. rewrite lbig_app, <- IHn. reflexivity. Qed.
+Lemma lbig_perm l l' : Permutation l l' -> lbig l = lbig l'.
+Proof. induction 1; cbn [lbig fold_right]; auto.
+  - fold (lbig l) (lbig l'). rewrite IHPermutation. reflexivity.
+  - fold (lbig l). rewrite !op_assoc. rewrite (op_comm y x). reflexivity.
+  - congruence. Qed.
+Lemma NoDup_map_bInj (f : nat -> nat) n : bInjective n f -> NoDup (map f (seq 0 n)).
+Proof. intros Hi.
+  assert (H : forall l, NoDup l -> (forall x, In x l -> (x < n)%nat) -> NoDup (map f l)).
+  { induction l; intros Hn Hb; cbn [map]. constructor. inversion Hn; subst. constructor.
+    - rewrite in_map_iff. intros (x & Hx & Hin). apply H1.
+      assert (x = a) by (apply Hi; auto; apply Hb; [right; auto | left; auto]). subst; auto.
+    - apply IHl; auto. intros; apply Hb; right; auto. }
+  apply H. apply seq_NoDup. intros x Hx. apply in_seq in Hx. lia. Qed.
+Lemma big_reindex n (f : nat -> nat) g : bFun n f -> bInjective n f -> big n (fun i => g (f i)) = big n g.
+Proof. intros Hb Hi. rewrite !big_lbig. rewrite <- (map_map f g). apply lbig_perm. apply Permutation_map.
+  apply NoDup_Permutation_bis. apply NoDup_map_bInj; auto. rewrite map_length; auto.
+  intros x Hx. apply in_map_iff in Hx. destruct Hx as (k & <- & Hk). apply in_seq in Hk. apply in_seq.
+  pose proof (Hb k). lia. Qed.
+Lemma big_ext n g h : (forall k, (k < n)%nat -> g k = h k) -> big n g = big n h.
+Proof. induction n; intros H; cbn [big]; auto. rewrite IHn, H; auto. Qed.
+End Big.
+
+Lemma rsum_big n g : rsum n g = big Rplus 0 n g.
+Proof. induction n; cbn [rsum big]; auto; rewrite IHn; reflexivity. Qed.
+Lemma bprod_big n g : bprod RO n g = big Rmult 1 n g.
+Proof. induction n; cbn [bprod big]; auto; rewrite IHn; reflexivity. Qed.
+Lemma rsum_reindex n f g : bFun n f -> bInjective n f -> rsum n (fun i => g (f i)) = rsum n g.
+Proof. intros. rewrite !rsum_big. apply big_reindex; auto; intros; ring. Qed.
+Lemma bprod_reindex n f g : bFun n f -> bInjective n f -> bprod RO n (fun i => g (f i)) = bprod RO n g.
+Proof. intros. rewrite !bprod_big. apply big_reindex; auto; intros; ring. Qed.
+Lemma bprod_ext n g h : (forall k, (k < n)%nat -> g k = h k) -> bprod RO n g = bprod RO n h.
+Proof. intros. rewrite !bprod_big. apply big_ext; auto. Qed.
+
+(* ================================================================= complex Bingham *)
+(* Kent (1994): c(lam) = 2 pi^D sum_j exp(lam_j) / prod_{i <> j} (lam_j - lam_i);
+   density  exp(z^H B z) / c(lam)  w.r.t. surface measure on the unit sphere of C^D *)
+Definition kent_coeff (D : nat) (lam : nat -> R) (j : nat) : R :=
+  / bprod RO D (fun i => if Nat.eqb i j then 1 else lam j - lam i).
+Definition kent_normaliser (D : nat) (lam : nat -> R) : R :=
+  2 * PI ^ D * rsum D (fun j => kent_coeff D lam j * exp (lam j)).
+Definition bingham_pdf (D : nat) (B : nat -> nat -> C) (lam : nat -> R) (z : nat -> C) : R :=
+  exp (fst (form D B z z)) / kent_normaliser D lam.
+(* B = E diag(lam) E^H *)
+Definition eig_compose (D : nat) (E : nat -> nat -> C) (lam : nat -> R) (w z : nat) : C :=
+  csum D (fun x => E w x * RtoC (lam x) * Cconj (E z x))%C.
+
+Lemma kent_normaliser_perm D lam lam' f : bFun D f -> bInjective D f ->
+  (forall x, (x < D)%nat -> lam' x = lam (f x)) -> kent_normaliser D lam' = kent_normaliser D lam.
+Proof. intros Hb Hi Hl. unfold kent_normaliser. f_equal.
+  rewrite <- (rsum_reindex D f (fun j => kent_coeff D lam j * exp (lam j)) Hb Hi).
+  apply rsum_ext; intros j Hj. rewrite (Hl j Hj). f_equal. unfold kent_coeff. f_equal.
+  rewrite <- (bprod_reindex D f (fun i => if Nat.eqb i (f j) then 1 else lam (f j) - lam i) Hb Hi).
+  apply bprod_ext; intros i Hi'. rewrite (Hl i Hi'), (Hl j Hj).
+  destruct (Nat.eqb_spec i j) as [->|Hne]. rewrite Nat.eqb_refl; reflexivity.
+  destruct (Nat.eqb_spec (f i) (f j)) as [Heq|]; [|reflexivity]. exfalso. apply Hne. apply Hi; auto. Qed.
+
+(* --- sorting and the duplicate-eigenvalue spreading --- *)
+Lemma oinsert_perm a l : Permutation (oinsert RO a l) (a :: l).
+Proof. induction l; cbn [oinsert]. reflexivity. destruct (oleb RO a a0). reflexivity.
+  rewrite IHl. apply perm_swap. Qed.
+Lemma osort_perm l : Permutation (osort RO l) l.
+Proof. induction l; cbn [osort]. constructor. rewrite oinsert_perm. constructor; auto. Qed.
+
+Fixpoint chainG (eps prev : R) (l : list R) : Prop :=
+  match l with [] => True | h :: t => eps <= h - prev /\ chainG eps h t end.
+Definition sortedG (eps : R) (l : list R) : Prop := match l with [] => True | h :: t => chainG eps h t end.
+
+Lemma spread_aux_id eps s0 l : forall acc prev, s0 + acc = prev -> chainG eps prev l ->
+  spread_aux RO eps s0 acc prev l = l.
+Proof. induction l; intros acc prev He Hc; cbn [spread_aux]. reflexivity. destruct Hc as [H1 H2].
+  unfold osub. cbn [oadd oopp RO]. rewrite omax_RO. rewrite Rmax_left by lra.
+  f_equal. lra. apply IHl; auto. lra. Qed.
+Lemma spread_id eps l : sortedG eps l -> spread RO eps l = l.
+Proof. destruct l; cbn [spread sortedG]; intros H. reflexivity. f_equal. apply spread_aux_id; auto. cbn [o0 RO]. lra. Qed.
+
+Definition far (eps a b : R) : Prop := eps <= Rabs (a - b).
+Lemma chainG_insert eps a : forall s p, chainG eps p s -> eps <= a - p -> List.Forall (far eps a) s ->
+  chainG eps p (oinsert RO a s).
+Proof. induction s; intros p Hc Ha Hf; cbn [oinsert]. cbn [chainG]. auto.
+  destruct Hc as [H1 H2]. inversion Hf; subst. cbn [oleb RO]. destruct (Rleb a a0) eqn:El.
+  - apply Rleb_true in El. cbn [chainG]. repeat split; auto. unfold far in H3.
+    rewrite Rabs_left1 in H3 by lra. lra.
+  - apply Rleb_false in El. cbn [chainG]. split; auto. apply IHs; auto. unfold far in H3.
+    rewrite Rabs_right in H3 by lra. lra. Qed.
+Lemma sortedG_insert eps a s : sortedG eps s -> List.Forall (far eps a) s -> sortedG eps (oinsert RO a s).
+Proof. destruct s; intros Hs Hf; cbn [oinsert sortedG]. exact I.
+  inversion Hf; subst. cbn [oleb RO]. destruct (Rleb a r) eqn:El.
+  - apply Rleb_true in El. cbn [sortedG chainG]. split; auto. unfold far in H1. rewrite Rabs_left1 in H1 by lra. lra.
+  - apply Rleb_false in El. cbn [sortedG]. apply chainG_insert; auto. unfold far in H1. rewrite Rabs_right in H1 by lra. lra. Qed.
+Lemma Forall_insert (Q : R -> Prop) a s : Q a -> List.Forall Q s -> List.Forall Q (oinsert RO a s).
+Proof. induction s; intros Ha Hs; cbn [oinsert]. auto. inversion Hs; subst. destruct (oleb RO a a0); auto. Qed.
+Lemma Forall_osort (Q : R -> Prop) l : List.Forall Q l -> List.Forall Q (osort RO l).
+Proof. induction l; intros H; cbn [osort]. auto. inversion H; subst. apply Forall_insert; auto. Qed.
+(* pairwise gaps >= eps, in any order  ==>  the sorted list has consecutive gaps >= eps *)
+Lemma osort_sortedG eps l : List.ForallOrdPairs (far eps) l -> sortedG eps (osort RO l).
+Proof. induction 1; cbn [osort]. exact I. apply sortedG_insert; auto. apply Forall_osort; auto. Qed.
+
+Lemma remove_duplicates_id eps l : List.ForallOrdPairs (far eps) l -> remove_duplicates RO eps l = osort RO l.
+Proof. intros H. unfold remove_duplicates. apply spread_id. apply osort_sortedG; auto. Qed.
+
+Section Bingham.
+Variables (D : nat) (E : nat -> nat -> C) (lam : list R) (y : nat -> C) (eps : R).
+Hypothesis Hlen : length lam = D.
+(* the property's domain: pairwise eigenvalue gaps of at least eps (1e-8 in the code, 1e-3 in the property) *)
+Hypothesis Hgap : List.ForallOrdPairs (far eps) lam.
+Hypothesis Hnorm : 0 < kent_normaliser D (fun i => nth i lam 0).
+
+Lemma herm_form_R (f : nat -> R) :
+  herm_form RO D y (eig_matrix RO D E f) = form D (eig_compose D E f) y y.
+Proof. unfold herm_form, form, dot, mv. rewrite csumO_RO. apply csum_ext; intros d Hd. rewrite csumO_RO.
+  rewrite <- csum_scal. apply csum_ext; intros e He. bridge.
+  replace (eig_matrix RO D E f d e) with (eig_compose D E f d e). ring.
+  unfold eig_matrix, eig_compose. etransitivity; [| symmetry; apply csumO_RO].
+  apply csum_ext; intros x Hx. bridge. rewrite cscale_RO. ring. Qed.
+
+Lemma bingham_norm_R l' :
+  bingham_norm RO PI D l' = kent_normaliser D l'.
+Proof. unfold bingham_norm, kent_normaliser, kent_sum. rewrite two_R, opow_R, bsum_RO. cbn [omul RO]. reflexivity. Qed.
+
+Theorem bingham_logpdf_spec :
+  bingham_logpdf RO PI D E lam y eps
+  = ln (bingham_pdf D (eig_compose D E (fun i => nth i lam 0)) (fun i => nth i lam 0) y).
+Proof. unfold bingham_pdf. rewrite ln_div by (auto; apply exp_pos). rewrite ln_exp.
+  unfold bingham_logpdf, bingham_lognorm, osub. cbn [oadd oopp oln RO].
+  rewrite herm_form_R. unfold lam_at. cbn [o0 RO]. rewrite bingham_norm_R.
+  rewrite remove_duplicates_id by auto.
+  pose proof (osort_perm lam) as Hp. apply Permutation_sym in Hp.
+  apply (Permutation_nth lam (osort RO lam) 0) in Hp. cbv zeta in Hp. destruct Hp as (Hl & f & Hb & Hi & Hf).
+  rewrite Hlen in *.
+  rewrite (kent_normaliser_perm D (fun i => nth i lam 0) (fun i => nth i (osort RO lam) 0) f Hb Hi Hf).
+  reflexivity. Qed.
+End Bingham.
+
+(* ================================================================= complex angular central Gaussian *)
+(* cACG density on the unit sphere of C^D:  (D-1)!/(2 pi^D) * 1/det B * (z^H B^-1 z)^(-D);
+   log_pdf is documented (property C07) as the density TIMES the sphere area 2 pi^D/(D-1)!, i.e.
+   1/det B * (z^H B^-1 z)^(-D), written here with Binv = B^-1 and detB = det B *)
+Definition cacg_pdf_times_area (D : nat) (Binv : nat -> nat -> C) (detB : R) (z : nat -> C) : R :=
+  / detB * / (fst (form D Binv z z)) ^ D.
+Definition sphere_area (D : nat) : R := 2 * PI ^ D / INR (fact (D - 1)).
+Definition cacg_pdf (D : nat) (Binv : nat -> nat -> C) (detB : R) (z : nat -> C) : R :=
+  INR (fact (D - 1)) / (2 * PI ^ D) * cacg_pdf_times_area D Binv detB z.
+
+Lemma cacg_pdf_area D Binv detB z : cacg_pdf_times_area D Binv detB z = cacg_pdf D Binv detB z * sphere_area D.
+Proof. unfold cacg_pdf, sphere_area. field. split. apply not_0_INR, fact_neq_0.
+  assert (0 < PI ^ D) by apply pow_lt, PI_RGT_0. lra. Qed.
+
+Section CACG.
+Variables (D : nat) (E : nat -> nat -> C) (lam : nat -> R) (y : nat -> C) (tiny detB : R).
+Hypothesis Hlam : forall e, (e < D)%nat -> 0 < lam e.
+(* eigen-decomposition contract: E unitary; det of B = E diag(lam) E^H is the product of the eigenvalues *)
+Hypothesis HEE : forall a b, (a < D)%nat -> (b < D)%nat ->
+  csum D (fun d => Cconj (E d a) * E d b)%C = if Nat.eqb a b then RtoC 1 else RtoC 0.
+Hypothesis HEEt : forall a b, (a < D)%nat -> (b < D)%nat ->
+  csum D (fun x => E a x * Cconj (E b x))%C = if Nat.eqb a b then RtoC 1 else RtoC 0.
+Hypothesis Hdet : detB = bprod RO D lam.
+Let nrm := sqrt (rsum D (fun d => Cmod (y d) * Cmod (y d))).
+Hypothesis Hy : 0 < nrm.
+Let z (d : nat) : C := (RtoC (/ nrm) * y d)%C.
+Let Binv := eig_compose D E (fun e => / lam e).
+Let B := eig_compose D E lam.
+Hypothesis Htiny : tiny <= fst (form D Binv z z).
+Hypothesis Htiny0 : 0 < tiny.
+
+(* Binv is the inverse of the matrix B the class stands for *)
+Lemma eig_inverse i k : (i < D)%nat -> (k < D)%nat ->
+  csum D (fun j => Binv i j * B j k)%C = if Nat.eqb i k then RtoC 1 else RtoC 0.
+Proof. intros Hi Hk. unfold Binv, B, eig_compose.
+  transitivity (csum D (fun a => csum D (fun b =>
+     (E i a * RtoC (/ lam a) * RtoC (lam b) * Cconj (E k b)) * csum D (fun j => Cconj (E j a) * E j b))))%C.
+  { transitivity (csum D (fun j => csum D (fun a => csum D (fun b =>
+        (E i a * RtoC (/ lam a) * RtoC (lam b) * Cconj (E k b)) * (Cconj (E j a) * E j b)))))%C.
+    { apply csum_ext; intros j Hj. rewrite <- csum_scal_r. apply csum_ext; intros a Ha.
+      rewrite <- csum_scal. apply csum_ext; intros b Hb. ring. }
+    rewrite csum_swap. apply csum_ext; intros a Ha. rewrite csum_swap. apply csum_ext; intros b Hb.
+    rewrite <- csum_scal. reflexivity. }
+  transitivity (csum D (fun a => E i a * Cconj (E k a)))%C; [| apply HEEt; auto].
+  apply csum_ext; intros a Ha.
+  rewrite (csum_ext D _ (fun b => (if Nat.eqb a b then RtoC 1 else RtoC 0) * (E i a * RtoC (/ lam a) * RtoC (lam b) * Cconj (E k b))))%C.
+  2:{ intros b Hb. rewrite HEE by auto. ring. }
+  rewrite csum_delta_l by auto.
+  assert (Hl1 : (RtoC (/ lam a) * RtoC (lam a) = 1)%C).
+  { rewrite <- RtoC_mult, Rinv_l. reflexivity. pose proof (Hlam a Ha); lra. }
+  transitivity (E i a * (RtoC (/ lam a) * RtoC (lam a)) * Cconj (E k a))%C. ring. rewrite Hl1. ring. Qed.
+
+Lemma cacg_unit_R d : cacg_unit RO D y tiny d = z d.
+Proof. unfold cacg_unit, cnorm. rewrite bsum_RO.
+  rewrite (rsum_ext D _ (fun d => Cmod (y d) * Cmod (y d))) by (intros; apply cabs2_RO).
+  cbn [osqrt oleb o0 oinv RO]. fold nrm.
+  assert (El : Rleb nrm 0 = false) by (apply Rleb_false; auto). rewrite El. cbn [andb].
+  rewrite cscale_RO. reflexivity. Qed.
+
+Definition proj (e : nat) : C := csum D (fun g => Cconj (E g e) * z g)%C.
+
+Lemma cacg_form_real :
+  cacg_form_c RO D E lam y tiny = RtoC (rsum D (fun e => / lam e * (Cmod (proj e) * Cmod (proj e)))).
+Proof. unfold cacg_form_c. rewrite csumO_RO. rewrite <- csum_RtoC. apply csum_ext; intros e He.
+  rewrite cscale_RO.
+  rewrite (csumO_RO D (fun d => cmul RO (cconj RO (cacg_unit RO D y tiny d)) (E d e))).
+  rewrite (csumO_RO D (fun g => cmul RO (cconj RO (E g e)) (cacg_unit RO D y tiny g))).
+  cbn [oinv RO]. bridge.
+  rewrite (csum_ext D (fun g => Cconj (E g e) * cacg_unit RO D y tiny g)%C (fun g => Cconj (E g e) * z g)%C)
+    by (intros; rewrite cacg_unit_R; reflexivity).
+  rewrite (csum_ext D (fun d => Cconj (cacg_unit RO D y tiny d) * E d e)%C (fun d => Cconj (Cconj (E d e) * z d))%C).
+  2:{ intros d Hd. rewrite cacg_unit_R, Cconj_mult, Cconj_conj. ring. }
+  rewrite <- csum_conj. fold (proj e). rewrite conj_mul_self. rewrite <- RtoC_mult. reflexivity. Qed.
+
+Lemma form_Binv : form D Binv z z = RtoC (rsum D (fun e => / lam e * (Cmod (proj e) * Cmod (proj e)))).
+Proof. rewrite <- csum_RtoC. unfold form, dot, mv, Binv, eig_compose.
+  transitivity (csum D (fun i => csum D (fun j => csum D (fun e =>
+     RtoC (/ lam e) * (Cconj (Cconj (E i e) * z i) * (Cconj (E j e) * z j))))))%C.
+  { apply csum_ext; intros i Hi. rewrite <- csum_scal. apply csum_ext; intros j Hj. rewrite <- csum_scal_r, <- csum_scal.
+    apply csum_ext; intros e He. rewrite Cconj_mult, Cconj_conj. ring. }
+  rewrite (csum_ext D _ (fun i => csum D (fun e => csum D (fun j =>
+     RtoC (/ lam e) * (Cconj (Cconj (E i e) * z i) * (Cconj (E j e) * z j))))))%C by (intros; apply csum_swap).
+  rewrite csum_swap. apply csum_ext; intros e He.
+  rewrite (csum_ext D _ (fun i => RtoC (/ lam e) * Cconj (Cconj (E i e) * z i) * proj e))%C.
+  2:{ intros i Hi. unfold proj. rewrite <- csum_scal. apply csum_ext; intros; ring. }
+  rewrite csum_scal_r.
+  rewrite csum_scal, <- csum_conj. fold (proj e). rewrite <- Cmult_assoc, conj_mul_self, <- RtoC_mult. reflexivity. Qed.
+
+Theorem cacg_logpdf_spec :
+  cacg_logpdf RO D E lam y tiny = ln (cacg_pdf_times_area D Binv detB z).
+Proof.
+  set (q := rsum D (fun e => / lam e * (Cmod (proj e) * Cmod (proj e)))).
+  assert (Hq : form D Binv z z = RtoC q) by apply form_Binv.
+  assert (Hqt : tiny <= q). { rewrite Hq in Htiny. exact Htiny. }
+  assert (Hq0 : 0 < q) by lra.
+  unfold cacg_pdf_times_area. rewrite Hq. cbn [fst RtoC].
+  assert (Hd0 : 0 < detB). { rewrite Hdet. apply bprod_pos; auto. }
+  rewrite ln_mult by (apply Rinv_0_lt_compat; auto; apply pow_lt; auto).
+  rewrite !ln_Rinv by (auto; apply pow_lt; auto). rewrite ln_pow by auto.
+  unfold cacg_logpdf, cacg_quadratic_form, cacg_logdet, osub. rewrite cacg_form_real. fold q.
+  assert (Ea : cabs RO (RtoC q) = q).
+  { unfold cabs. rewrite cabs2_RO. cbn [osqrt RO]. rewrite sqrt_square by apply Cmod_ge_0.
+    rewrite Cmod_R. apply Rabs_right. lra. }
+  rewrite Ea, omax_RO, Rmax_left by exact Hqt. rewrite onat_R, bsum_RO. cbn [oadd omul oopp oln RO].
+  rewrite Hdet. rewrite <- rsum_ln_prod by auto. ring. Qed.
+End CACG.
+
+(* ================================================================= executable truncated series = partial sums *)
+Lemma kummer_term_step D kappa m : (1 <= D)%nat ->
+  kummer_term D kappa (S m) = kummer_term D kappa m * kappa / INR (D + m).
+Proof. intros HD. unfold kummer_term.
+  replace (D - 1 + S m)%nat with (S (D - 1 + m)) by lia.
+  replace (D + m)%nat with (S (D - 1 + m)) by lia.
+  rewrite fact_simpl, mult_INR. cbn [pow]. field. split. apply not_0_INR, fact_neq_0. apply not_0_INR. lia. Qed.
+
+Lemma kummer_sum_aux_R D kappa : (1 <= D)%nat -> forall n m t acc,
+  t = kummer_term D kappa m -> acc = rsum (S m) (kummer_term D kappa) ->
+  kummer_sum_aux RO kappa D n m t acc = rsum (S (m + n)) (kummer_term D kappa).
+Proof. intros HD. induction n; intros m t acc Ht Ha; cbn [kummer_sum_aux].
+  - rewrite Nat.add_0_r. exact Ha.
+  - replace (m + S n)%nat with (S m + n)%nat by lia. apply IHn.
+    + unfold odiv. cbn [omul oinv RO]. rewrite onat_R, Ht, kummer_term_step by auto. reflexivity.
+    + cbn [rsum]. unfold odiv. cbn [oadd omul oinv RO]. rewrite onat_R, Ht, Ha, kummer_term_step by auto.
+      cbn [rsum]. reflexivity. Qed.
+
+(* the executable Kummer sum is the n-th partial sum of the series in the Watson contract *)
+Theorem kummer_sum_partial D kappa n : (1 <= D)%nat ->
+  kummer_sum RO D kappa n = sum_n (kummer_term D kappa) n.
+Proof. intros HD. rewrite sum_n_rsum. unfold kummer_sum.
+  apply (kummer_sum_aux_R D kappa HD n 0%nat (o1 RO) (o1 RO)); cbn [o1 RO].
+  - unfold kummer_term. rewrite Nat.add_0_r. cbn [pow]. field. apply not_0_INR, fact_neq_0.
+  - cbn [rsum]. unfold kummer_term. rewrite Nat.add_0_r. cbn [pow]. field. apply not_0_INR, fact_neq_0. Qed.
+
+Lemma gamma_half_step k : (1 <= k)%nat -> gamma_half (S (S k)) = INR k / 2 * gamma_half k.
+Proof. intros Hk. destruct k; [lia|]. reflexivity. Qed.
+
+Lemma bessel_term_step D kappa m : (1 <= D)%nat -> 0 < kappa ->
+  bessel_term D kappa (S m)
+  = bessel_term D kappa m * (kappa * kappa / (2 * 2)) / (INR (S m) * (INR D / 2 + INR m)).
+Proof. intros HD Hk. unfold bessel_term.
+  replace (2 * INR (S m) + INR D / 2 - 1) with ((2 * INR m + INR D / 2 - 1) + INR 2) by (rewrite (S_INR m); change (INR 2) with (1 + 1); lra).
+  rewrite Rpower_plus. rewrite Rpower_pow by lra.
+  replace (2 * S m + D)%nat with (S (S (2 * m + D))) by lia.
+  rewrite gamma_half_step by lia. rewrite fact_simpl, mult_INR, plus_INR, mult_INR.
+  assert (0 < gamma_half (2 * m + D)) by (apply gamma_half_pos; lia).
+  assert (0 < INR (fact m)) by apply lt_0_INR, lt_O_fact.
+  assert (0 < INR (S m)) by (apply lt_0_INR; lia).
+  assert (0 < INR D) by (apply lt_0_INR; lia). pose proof (pos_INR m).
+  simpl (INR 2). field. repeat split; try lra. Qed.
+
+Lemma bessel_sum_aux_R D kappa : (1 <= D)%nat -> 0 < kappa -> forall n m t acc,
+  t * bessel_term D kappa 0 = bessel_term D kappa m ->
+  acc * bessel_term D kappa 0 = rsum (S m) (bessel_term D kappa) ->
+  bessel_sum_aux RO (kappa * kappa / (2 * 2)) (INR D / 2) n m t acc * bessel_term D kappa 0
+  = rsum (S (m + n)) (bessel_term D kappa).
+Proof. intros HD Hk. induction n; intros m t acc Ht Ha; cbn [bessel_sum_aux].
+  - rewrite Nat.add_0_r. exact Ha.
+  - replace (m + S n)%nat with (S m + n)%nat by lia.
+    assert (Hden : INR (S m) * (INR D / 2 + INR m) <> 0).
+    { assert (0 < INR (S m)) by (apply lt_0_INR; lia). assert (0 < INR D) by (apply lt_0_INR; lia).
+      pose proof (pos_INR m). apply Rgt_not_eq. apply Rmult_lt_0_compat; lra. }
+    assert (Et : t * (kappa * kappa / (2 * 2)) / (INR (S m) * (INR D / 2 + INR m)) * bessel_term D kappa 0
+                 = bessel_term D kappa (S m)).
+    { rewrite bessel_term_step by auto. rewrite <- Ht. field.
+      assert (0 < INR (S m)) by (apply lt_0_INR; lia). assert (0 < INR D) by (apply lt_0_INR; lia).
+      pose proof (pos_INR m). split; lra. }
+    apply IHn; unfold odiv; cbn [oadd omul oinv RO]; rewrite !onat_R.
+    + exact Et.
+    + cbn [rsum] in *. rewrite Rmult_plus_distr_r. rewrite Ha. f_equal. exact Et. Qed.
+
+(* the executable Bessel sum times the leading term is the n-th partial sum of the series in the vMF contract *)
+Theorem bessel_sum_partial D kappa n : (1 <= D)%nat -> 0 < kappa ->
+  bessel_sum RO D kappa n * bessel_term D kappa 0 = sum_n (bessel_term D kappa) n.
+Proof. intros HD Hk. rewrite sum_n_rsum. unfold bessel_sum, halfD, odiv. rewrite two_R, onat_R. cbn [omul oinv o1 RO].
+  change (kappa * kappa * / (2 * 2)) with (kappa * kappa / (2 * 2)). change (INR D * / 2) with (INR D / 2).
+  apply (bessel_sum_aux_R D kappa HD Hk n 0%nat 1 1). ring. cbn [rsum]. ring. Qed.
+
+Lemma ogamma_half_R n : ogamma_half RO PI n = gamma_half n.
+Proof.
+  assert (H : forall k, ogamma_half RO PI k = gamma_half k /\ ogamma_half RO PI (S k) = gamma_half (S k)).
+  { induction k. split; reflexivity. destruct IHk as [H1 H2]. split; auto.
+    destruct k. reflexivity.
+    change (ogamma_half RO PI (S (S (S k)))) with (omul RO (odiv RO (onat RO (S k)) (two RO)) (ogamma_half RO PI (S k))).
+    change (gamma_half (S (S (S k)))) with (INR (S k) / 2 * gamma_half (S k)).
+    rewrite H1. unfold odiv. rewrite two_R, onat_R. reflexivity. }
+  apply (H n). Qed.
+
+(* the series form of the vMF log-normaliser is the log-normaliser of the density with I replaced by
+   the n-th partial sum of its series *)
+Theorem vmf_lognorm_series_partial D kappa n : (1 <= D)%nat -> 0 < kappa ->
+  vmf_lognorm_series RO PI D kappa n
+  = ln (Rpower (2 * PI) (INR D / 2) * sum_n (bessel_term D kappa) n / Rpower kappa (INR D / 2 - 1)).
+Proof. intros HD Hk. rewrite <- bessel_sum_partial by auto.
+  assert (Hs : 0 < bessel_sum RO D kappa n * bessel_term D kappa 0).
+  { rewrite bessel_sum_partial by auto. rewrite sum_n_rsum.
+    assert (forall k, 0 < rsum (S k) (bessel_term D kappa)).
+    { intros k; induction k as [|k IH]; cbn [rsum] in *.
+      pose proof (bessel_term_pos D kappa 0 HD Hk); lra.
+      pose proof (bessel_term_pos D kappa (S k) HD Hk); lra. }
+    auto. }
+  assert (Hb0 : 0 < bessel_term D kappa 0) by (apply bessel_term_pos; auto).
+  assert (Hbs : 0 < bessel_sum RO D kappa n).
+  { destruct (Rlt_or_le 0 (bessel_sum RO D kappa n)); auto. exfalso.
+    assert (bessel_sum RO D kappa n * bessel_term D kappa 0 <= 0 * bessel_term D kappa 0)
+      by (apply Rmult_le_compat_r; lra). lra. }
+  rewrite ln_div; [| apply Rmult_lt_0_compat; auto; apply exp_pos | apply exp_pos].
+  rewrite ln_mult by (auto; apply exp_pos). rewrite ln_mult by auto. rewrite !ln_Rpower.
+  unfold bessel_term at 1. rewrite ln_div; [| apply exp_pos |].
+  2:{ apply Rmult_lt_0_compat. apply lt_0_INR, lt_O_fact. apply gamma_half_pos. lia. }
+  rewrite ln_Rpower. cbn [fact Nat.mul Nat.add]. rewrite (ln_mult (INR 1) (gamma_half D)); [| simpl; lra | apply gamma_half_pos; lia].
+  simpl (INR 1). simpl (INR 0). rewrite ln_1.
+  unfold vmf_lognorm_series, halfD, osub, odiv. rewrite ogamma_half_R, two_R, onat_R. cbn [oadd omul oopp oinv oln o1 RO].
+  change (kappa * / 2) with (kappa / 2). change (INR D * / 2) with (INR D / 2). ring. Qed.
